@@ -342,3 +342,50 @@ pub fn envcheck(_args: &[&str]) -> Option<Vec<String>> {
         format!("a3:{}:{}", ipish.len(), a3.join(",")),
     ])
 }
+
+/// `envhdrs <from|-> <to> <cc> <bcc>` (each recipient field: `x` = header absent, `-` = header present with an empty list,
+/// else a list of addresses) → the envelope `Envelope::try_from(&Headers)` derives, and what the message builder derives
+pub fn envhdrs(args: &[&str]) -> Option<Vec<String>> {
+    use lettre::message::{header, Mailbox, Mailboxes};
+    let mbs = |s: &str| -> Option<Option<Mailboxes>> {
+        if s == "x" {
+            return Some(None);
+        }
+        let mut m = Mailboxes::new();
+        for a in parse_addr_list(s)? {
+            m.push(Mailbox::new(None, a));
+        }
+        Some(Some(m))
+    };
+    let from = if *args.first()? == "-" { None } else { Some(unhex_str(args[0])?.parse::<Address>().ok()?) };
+    let (to, cc, bcc) = (mbs(args.get(1)?)?, mbs(args.get(2)?)?, mbs(args.get(3)?)?);
+    let mut h = header::Headers::new();
+    let mut b = lettre::Message::builder();
+    if let Some(f) = &from {
+        h.set(header::From::from(Mailboxes::new().with(Mailbox::new(None, f.clone()))));
+        b = b.from(Mailbox::new(None, f.clone()));
+    }
+    if let Some(m) = to {
+        h.set(header::To::from(m.clone()));
+        b = b.header(header::To::from(m));
+    }
+    if let Some(m) = cc {
+        h.set(header::Cc::from(m.clone()));
+        b = b.header(header::Cc::from(m));
+    }
+    if let Some(m) = bcc {
+        h.set(header::Bcc::from(m.clone()));
+        b = b.header(header::Bcc::from(m));
+    }
+    let show = |r: Result<Envelope, String>| match r {
+        Ok(e) => format!(
+            "ok:{}:{}",
+            e.from().map(|a| hex(a.to_string().as_bytes())).unwrap_or("none".into()),
+            hex_list(&e.to().iter().map(|a| a.to_string().into_bytes()).collect::<Vec<_>>())
+        ),
+        Err(e) => format!("err:{e}"),
+    };
+    let direct = show(Envelope::try_from(&h).map_err(|e| format!("{e:?}")));
+    let built = show(b.body(String::from("x")).map(|m| m.envelope().clone()).map_err(|e| format!("{e:?}")));
+    Some(vec![direct, built])
+}
